@@ -31,7 +31,10 @@ TRUSTED += [
     "translators/sharedstate.py (Python ast -> inventory of shared locations and write sites + their Gallina text); tied both ways "
     "to the live package on every run (every static location resolves, every live state-holding object has a static location)",
     "attribution of an observed write to a source statement: the line event preceding the event at which the change is seen",
-    "cdef globals of the .pyx modules are not Python attributes (cencoding specs/children tables): invisible to the monitor",
+    "cdef globals of the .pyx modules are not Python attributes (cencoding specs/children tables): invisible to the run-time monitor; "
+    "inventoried statically from the .pyx and the generated .c by a regex scan (stores at import time only), tied by the multi-threaded codec streams",
+    "translators/opreads.py: call graph by NAME and slots by attribute name (conservative for reads; a store into a computed subscript of a local "
+    "or parameter container names no slot and is left to the dynamic footprint); the order of reads in a row program is not the code's",
 ]
 
 BIG = 10 ** 9
@@ -288,7 +291,7 @@ def run(ctx):
     #      multi-switch / storm schedules, free-running threads, part writers - one job per (phase, dataset or chunk)
     fp_jobs, fp_state = footprint_jobs(ctx, datasets, rng, quick)
     base["broken"] = False
-    jobs = [dict(base, phase="corpus"), dict(base, phase="tree_model"), dict(base, phase="part_writers"),
+    jobs = [dict(base, phase="corpus"), dict(base, phase="tree_model"), dict(base, phase="part_writers"), dict(base, phase="native_codecs"),
             dict(base, phase="multi_switch", datasets=datasets)]
     fb = 42 if quick else 400
     for di, d in enumerate(datasets):
@@ -369,6 +372,48 @@ def static_inventory(ctx):
                               "patterns": {p_: sum(1 for s_ in inv["sites"] if s_["pattern"] == p_) for p_ in sharedstate.PATTERNS},
                               "static_offenders": [{k: s_[k] for k in ("file", "line", "func", "pattern", "base", "base_name", "target")} for s_ in bad][:20]}
     INV["static_bad"] = bad
+    # read side: per operation the slots it may read / write (call graph by name), the discipline obligation over reads AND
+    # writes re-proved on the regenerated table (C20_api_ops_disciplined on the regenerated table)
+    from translators import opreads
+    ores = opreads.run(C.REPO, ctx.gen_dir, inv)
+    ctx.extra["translator"]["opreads"] = {"status": ores["status"], "reason": ores.get("reason")}
+    if ores["status"] == "ok":
+        ok2, out2 = C.coqc(ores["file"], extra_q=[(ctx.gen_dir, "PqGen")])
+        if not ok2:
+            ctx.notes.append("translator_fallback: opreads: generated file rejected by coqc: %s" % out2[-300:])
+            ctx.extra["translator"]["opreads"]["status"] = "translator_fallback"
+        else:
+            ctx.coq_file(os.path.join(C.COQ, "genproofs", "GenOpReadsProofs.v"), extra_q=[(ctx.gen_dir, "PqGen")])
+            tab = ores["table"]
+            ctx.extra["op_table"] = {"rows": {r_["op"]: {"functions": r_["functions"], "reads": len(r_["reads"]),
+                                                        "writes": sorted(set("%s:%s" % (w_["slot"], w_["pattern"]) for w_ in r_["writes"]))[:30]}
+                                              for r_ in tab["rows"]},
+                                     "slots": len(tab["slots"]), "offenders": ores["offenders"][:12],
+                                     "missing_entries": [e for r_ in tab["rows"] for e in r_["missing_entries"]]}
+            ctx.obligation("op table: every entry point of the operations of the quantifier exists in the source",
+                           not ctx.extra["op_table"]["missing_entries"], "entry points not found: %s" % ctx.extra["op_table"]["missing_entries"])
+            # offending (reader, writer, slot, site): a concrete divergent run is looked for at the writer's site
+            seen_sites = set()
+            for o_ in ores["offenders"]:
+                if o_["site"] in seen_sites:
+                    continue
+                seen_sites.add(o_["site"])
+                fn_, ln_ = o_["site"].rsplit(":", 1)
+                for s_ in inv["sites"]:
+                    if s_["file"] == fn_ and s_["line"] == int(ln_) and s_ not in bad:
+                        bad.append(s_)
+                        break
+    else:
+        ctx.notes.append("translator_fallback: opreads: %s" % ores.get("reason"))
+    # native modules: C-level module state from the .pyx and the generated .c
+    nat = sharedstate.native_state(C.REPO)
+    ctx.extra["native_state"] = nat
+    off = [g for g in nat["globals"] if g["pyx_stores_in_functions"] or (g.get("c_stores_outside_init") or 0) > 0]
+    ctx.obligation("native inventory: every module-level cdef / Python global of the .pyx modules is stored at import time only "
+                   "(no store inside a function of the .pyx, no store outside the module-init functions of the generated .c), "
+                   "and the .c holds no static buffer of its own", not off and not nat["foreign_static_buffers"],
+                   "written after import: %s; static buffers: %s" % (
+                       [(g["module"], g["name"], g["pyx_stores_in_functions"], g.get("c_store_functions")) for g in off], nat["foreign_static_buffers"]))
 
 
 REFUTED_BY = {"augmented": "C20_rmw_refuted / C20_rmw_lost_update_refuted", "rmw": "C20_rmw_refuted", "set_restore": "C20_set_restore_refuted",
@@ -487,6 +532,8 @@ def _job(job):
               stress(rec, datasets, rec.rng, quick, job["r0"], job["r1"])
           elif ph == "targeted":
               targeted_search(rec, datasets, rec.rng, quick, job["target"])
+          elif ph == "native_codecs":
+              native_codecs(rec, rec.rng, quick)
           elif ph == "site_search":
               site_search(rec, datasets, rec.rng, quick, job["target"])
           else:
@@ -1048,6 +1095,26 @@ def readers_of(key, site, covered, di):
     return out[:10]
 
 
+def native_codecs(ctx, rng, quick):
+    """tie of the native inventory: the module-level C state of cencoding / speedups is written at import time only (static
+    obligation), so the same codec functions called from N threads must produce the bytes they produce from one thread"""
+    rounds = 6 if quick else 30
+    for r in range(rounds):
+        nt = [2, 4, 8, 16, 3, 12][r % 6]
+        n = 80 if quick else 200
+        seq, thr = conc.codec_threads(nt, n)
+        case = {"mode": "codec", "threads": nt, "calls": n}
+        ctx.case(case)
+        ctx.count("codec.threads", nt)
+        ctx.extra["codec_stream_roundtrip_misses_sequential"] = ctx.extra.get("codec_stream_roundtrip_misses_sequential", 0) + sum(int(x.split(":")[1]) for x in seq)
+        if seq != thr:
+            badi = [i for i in range(nt) if seq[i] != thr[i]]
+            ctx.fail({"component": "native-codec", "op": "codec_stream", "symptom": "wrong-result" if not str(thr[badi[0]]).startswith("EXC") else "exception",
+                      "mode": "stress"}, dict(case, streams=badi, sequential=[seq[i] for i in badi], threaded=[thr[i] for i in badi]),
+                     "codec streams %s give other bytes from %d threads than alone: %r vs %r" % (badi, nt, [thr[i] for i in badi][:2], [seq[i] for i in badi][:2]))
+            break
+
+
 def site_search(ctx, datasets, rng, quick, target):
     """A write site (file, line) follows a refuted pattern, or a write observed there is not an idempotent publication.
     Look for the victim with the witness interleavings of the refuted theorems: thread A is preempted right after it LEFT
@@ -1463,6 +1530,17 @@ def replay(rep):
             for c in fails[:3]:
                 print("   ", str(c[1][2])[:300])
             return 1 if fails else 0
+        if mode == "codec":
+            bad = 0
+            for t in range(20):
+                seq, thr = conc.codec_threads(case["threads"], case["calls"])
+                if seq != thr:
+                    print("round %d: codec streams differ: %r vs %r -> PROPERTY FAILS" % (t, thr, seq))
+                    bad = 1
+                    break
+            if not bad:
+                print("20 rounds: every codec stream gives from %d threads the bytes it gives alone" % case["threads"])
+            return bad
         spec = case["dataset"]
         if mode == "part":
             bad = 0
